@@ -101,13 +101,13 @@ func c01NamesKinds() []c01NamesJob {
 		c.SRTP, s.SRTP = []int{1, 1, 7, 1}, []int{7, 7, 1, 7}
 		c.SuitesSet, c.Suites = true, []int{0xc02b, 0xc02b, 0xc02c, 0xc02b}
 		s.SuitesSet, s.Suites = true, []int{0xc02c, 0xc02c, 0xc02b}
-		c.Curves, s.Curves = []int{29, 29, 23}, []int{23, 23, 29, 23}
+		c.Curves, s.Curves = []int{29, 23}, []int{23, 23, 29, 23} // (a client refuses to send a duplicate group itself)
 	})
 	add("cert13-duplicates", false, false, func(c, s *c11Cfg) {
 		s.Key = 1
 		c.Min, c.Max, s.Min, s.Max = 3, 3, 3, 3
 		c.SRTP, s.SRTP = []int{7, 7, 1}, []int{1, 1, 7}
-		c.Curves, s.Curves = []int{29, 29, 23}, []int{23, 23, 29}
+		c.Curves, s.Curves = []int{29, 23}, []int{23, 23, 29}
 	})
 
 	return kinds
@@ -177,15 +177,15 @@ func TestVerifC01Names(t *testing.T) {
 			c.CID, s.CID = -1, -1
 			s.Key = 1
 			if strings.EqualFold(sni, "alt.verif") {
-				s.Key2 = 2
+				s.Key2, c.SNI = 2, 1 // the chain expected is the one the name selects, however it is spelled
 			}
 			jobs = append(jobs, c01NamesJob{gen: "sni-case", c: c, s: s, cn: p.cn, sn: p.sn, sni: sni})
 		}
 	}
 	// generated lists: one protocol both applications mean, spelled by each side in its own way, among other names
-	n := 420
+	n := 1200
 	if vIsThorough() {
-		n = 6000
+		n = 12000
 	}
 	acts := []string{"pass", "drop", "dup", "hold:1", "hold:3"}
 	for i := 0; i < n; i++ {
